@@ -299,7 +299,49 @@ pub fn run_case<B: Backend>(c: &Case, acc: &mut Acc) -> R {
     Ok(())
 }
 
+/// v1: key pairs of other modulus sizes.  The unchanged library refuses them; whatever pair a
+/// back end does accept as key-sealing keys must seal and unseal like any other.
+fn odd_recipients<B: Backend>(acc: &mut Acc) {
+    use paseto_core::version::{PkePublic, PkeSecret};
+    if B::VER != Ver::V1 {
+        return;
+    }
+    let name = B::NAME;
+    for (bits, der) in crate::keypool::odd_sizes() {
+        let pubder = public_bytes(B::VER, &der);
+        let (Ok(sk), Ok(pk)) = (key_from_bytes::<V<B>, PkeSecret>(&der), key_from_bytes::<V<B>, PkePublic>(&pubder)) else {
+            acc.eval();
+            acc.class("odd-recipient:refused");
+            continue;
+        };
+        acc.class("odd-recipient:accepted");
+        for j in 0..acc.tier.pick(6u64, 24) {
+            let key = local_key::<B>(&KeySeed::from_u64(mix(acc.seed, bits as u64 * 31 + j)));
+            let orig = key_bytes(&key);
+            let case = json!({"modulus_bits": bits, "j": j});
+            acc.eval();
+            acc.nt(hash_of(&(bits, j)));
+            let r = key.seal(&pk).and_then(|s| s.to_string().parse::<SealedKey<V<B>>>()).and_then(|s| s.unseal(&sk));
+            match r {
+                Ok(k) if key_bytes(&k) == orig => {}
+                Ok(_) => acc.fail(Fail::new(format!("C05/{name}/pke/accepted-{bits}-bit-recipient/key-differs"), "seal -> unseal under an accepted recipient pair returns another key"), case),
+                Err(e) => acc.fail(Fail::new(format!("C05/{name}/pke/accepted-{bits}-bit-recipient/round-trip-failed"), format!("the back end accepts this {bits}-bit pair as key-sealing keys but seal -> parse -> unseal fails: {e}")), case),
+            }
+        }
+    }
+}
+
 fn subs_for<B: Backend>(out: &mut Vec<SubCheck>) {
+    if B::VER == Ver::V1 {
+        out.push(SubCheck::custom(format!("c05.odd-recipients/{}", B::NAME), 6, odd_recipients::<B>, |_v: &serde_json::Value, acc: &mut Acc| {
+            let before = acc.violations.len();
+            odd_recipients::<B>(acc);
+            match acc.violations.get(before) {
+                Some(v) => Err(Fail::new(v.sig.clone(), v.what.clone())),
+                None => Ok(()),
+            }
+        }));
+    }
     let v1 = B::VER == Ver::V1;
     for (which, label, cases, weight) in [
         (0u8, "pie", if v1 { (200, 2000) } else { (400, 8000) }, 2),
@@ -404,7 +446,7 @@ pub fn def() -> PropertyDef {
     PropertyDef {
         id: "C05",
         level: "exploration",
-        rule: "proptest cases (back end x {PIE, PBKW, PKE} x wrapped key {local, secret; parsed, random()} x wrapping key / password (any bytes incl. empty) / PBKW parameters (cheapest, random within budget, default, and a few high-cost ones: > 10^6 PBKDF2 iterations / 64-192 MiB Argon2id, and one Argon2id case at 4 GiB per v2/v4 back end) x recipient pair; v1 RSA-KEM draw scripted so that the ciphertext has 1-2 leading zero bytes; v1/v3 derived AES-CTR counter block forced (hook) to values whose counter carries past 64 / 128 bits, for wrap and unwrap alike); oracle = wrap ok, own text parses and re-serialises, unwrap returns the same key bytes, decoded length equals the format's fixed length; non-trivial iff non-default parameters, secret key payload, constructed draw, or parsed key",
+        rule: "proptest cases (back end x {PIE, PBKW, PKE} x wrapped key {local, secret; parsed, random()} x wrapping key / password (any bytes incl. empty) / PBKW parameters (cheapest, random within budget, default, and a few high-cost ones: > 10^6 PBKDF2 iterations / 64-192 MiB Argon2id, and one Argon2id case at 4 GiB per v2/v4 back end) x recipient pair (v1: also every pool key of another modulus size that the back end accepts as a key-sealing pair); v1 RSA-KEM draw scripted so that the ciphertext has 1-2 leading zero bytes; v1/v3 derived AES-CTR counter block forced (hook) to values whose counter carries past 64 / 128 bits, for wrap and unwrap alike); oracle = wrap ok, own text parses and re-serialises, unwrap returns the same key bytes, decoded length equals the format's fixed length; non-trivial iff non-default parameters, secret key payload, constructed draw, or parsed key",
         assumptions: vec![
             "PBKW parameters are bounded (<= 4 MiB / 3 passes / 10000 iterations) except the few default-cost cases",
             "v1 keys come from a committed pool of RSA-2048/4096 keys",
